@@ -321,7 +321,8 @@ class dispatch:
                     out = func(tensordict, *args, **kwargs)
 
                 # This makes dispatch responsible of handling partial outputs (such as selected through select_out_keys)
-                out = tuple(out[key] for key in dest)
+                # "_" is the sink for ignored outputs: it is never written, hence never returned
+                out = tuple(out[key] for key in dest if key != "_")
                 return out[0] if len(out) == 1 else out
 
             if _self is not None:
@@ -412,9 +413,10 @@ class _OutKeysSelect:
         out_keys = self.out_keys
         # if dispatch filtered the out keys as they should we're happy
         if is_dispatched:
-            if (not isinstance(tensordict_out, tuple) and len(out_keys) == 1) or (
-                isinstance(tensordict_out, tuple)
-                and len(out_keys) == len(tensordict_out)
+            # dispatch does not return the "_" sink
+            n_out = sum(key != "_" for key in out_keys)
+            if (not isinstance(tensordict_out, tuple) and n_out == 1) or (
+                isinstance(tensordict_out, tuple) and n_out == len(tensordict_out)
             ):
                 return tensordict_out
         if is_dispatched:
